@@ -1240,6 +1240,30 @@ def untagged_unions_package(namespace="Unt", small=False):
     return pkg
 
 
+def instantiations_package(namespace="Inst"):
+    """one generic record instantiated many times in one protocol, with type arguments that share their outermost constructor and differ inside
+    (vectors, optionals, maps, arrays, enums, nested instantiations of different element types): whatever a back end keeps per instantiation
+    (serializer objects, dtypes, converters) must be kept per *whole* type argument"""
+    pkg = Package(namespace)
+    P = lambda n: ("prim", n)
+    pkg.defs.append({"kind": "record", "name": "Labeled", "tparams": ["T"], "fields": [("label", P("string")), ("v", ("tparam", "T"))]})
+    pkg.defs.append({"kind": "record", "name": "Two", "tparams": ["A", "B"], "fields": [("a", ("tparam", "A")), ("b", ("tparam", "B"))]})
+    pkg.defs.append({"kind": "enum", "name": "Ea", "flags": False, "base": "uint8", "auto": True, "values": [("x", 0), ("y", 1)]})
+    pkg.defs.append({"kind": "enum", "name": "Eb", "flags": False, "base": "int64", "auto": False, "values": [("p", -5), ("q", 70000)]})
+    L = lambda t: ("named", "Labeled", [t])
+    T = lambda a, b: ("named", "Two", [a, b])
+    args = [("vec", P("float32"), None), ("vec", P("float64"), None), ("vec", P("int16"), None), ("opt", P("int32")), ("opt", P("string")), ("opt", P("float64")),
+            ("map", P("string"), P("int8")), ("map", P("string"), P("float64")), ("map", P("uint32"), P("string")),
+            ("arr", P("float32"), ("fixed", [2], None)), ("arr", P("int32"), ("fixed", [2], None)), ("vec", P("uint8"), 3), ("vec", P("float64"), 3),
+            ("named", "Ea", []), ("named", "Eb", []), L(P("int32")), L(P("float32")), L(("vec", P("string"), None)), L(("vec", P("uint64"), None))]
+    steps = [(f"l{i}", L(a), i % 3 == 0) for i, a in enumerate(args)]
+    steps += [(f"t{i}", T(args[i], args[(i * 7 + 3) % len(args)]), i % 2 == 1) for i in range(0, len(args), 2)]
+    steps.append(("vl", ("vec", L(("vec", P("float32"), None)), None), False))
+    steps.append(("vd", ("vec", L(("vec", P("float64"), None)), None), False))
+    pkg.defs.append({"kind": "protocol", "name": "PInst", "steps": steps})
+    return pkg
+
+
 def arrays_package(namespace="Arr"):
     """multi-dimensional arrays of every element encoding (fixed-size scalars, variable-length integers, flat records) in every array form, as steps,
     stream items and record fields: small enough for the quick tier"""
